@@ -65,7 +65,11 @@ func (x *Executor) Become(stdin *os.File, environ []string, command string) {
 	}
 	args := append([]string{shellPath}, append(x.args, command)...)
 	SetStdin(stdin)
-	syscall.Exec(shellPath, args, environ)
+	if err := syscall.Exec(shellPath, args, environ); err != nil {
+		// The terminal has already been handed back: there is no way to go on
+		fmt.Fprintf(os.Stderr, "fzf (become): %s\n", err.Error())
+		os.Exit(126)
+	}
 }
 
 // KillCommand kills the process for the given command
